@@ -41,8 +41,18 @@ def strat_page():
         tok_num = st.text(alphabet="0123", min_size=1, max_size=3)
         tok_delim = st.sampled_from([",", ".", "-", ":", '"', "،"])
 
+        tok_lat = st.text(alphabet=[c for c in table if c != " " and c not in ARABIC], min_size=1, max_size=5)
+        # Latin words with punctuation glued to an edge ("Hello," / "(end.")
+        tok_punct = st.tuples(st.sampled_from(["", ",", '"', "-"]), tok_lat, st.sampled_from([",", ".", ":", '"', ""])).map("".join)
+
         def text_strategy():
-            token = st.one_of(tok_in, tok_in, tok_ar, tok_out, tok_num, tok_delim) if arabic else st.one_of(tok_in, tok_in, tok_in, tok_out, tok_num)
+            if arabic:
+                script = draw(st.sampled_from(["mixed", "mixed", "latin_only", "arabic_only"]))
+                token = {"mixed": st.one_of(tok_in, tok_ar, tok_out, tok_num, tok_delim, tok_punct),
+                         "latin_only": st.one_of(tok_lat, tok_punct, tok_num),
+                         "arabic_only": st.one_of(tok_ar, tok_ar, tok_delim)}[script]
+            else:
+                token = st.one_of(tok_in, tok_in, tok_in, tok_out, tok_num, tok_punct)
             @st.composite
             def text(draw2):
                 kind = draw2(st.sampled_from(["normal", "normal", "normal", "none", "empty", "blank"]))
